@@ -776,6 +776,72 @@ func (e *mcEngine) run(notaryOff bool) {
 		}
 	}
 	flush(1)
+	if e.notaryOff && e.r.Prop == "C19" {
+		e.reentrantCheque()
+	}
+}
+
+// reentrantCheque closes a C19 run in a world without Notary with one more
+// cheque, to a receiver contract that asks for the same cheque again from
+// inside its payment callback. The model is not consulted: "pays out exactly
+// the cheque amount once the Alphabet approves" is checked directly on the GAS
+// balances. Only where the threshold is at least two: there the nested request
+// is one vote (of the member whose transaction it rides on) and approves
+// nothing.
+func (e *mcEngine) reentrantCheque() {
+	w, r, m := e.w, e.r, e.m
+	thr := len(m.alpha)*2/3 + 1
+	if thr < 2 {
+		return
+	}
+	e.empty(21) // every open ballot has run out
+	amount := int64(3 * mcGAS)
+	if w.GASOf(w.NeoFS.Hash).Cmp(big.NewInt(4*amount)) < 0 {
+		r.Count("outcome.reentrantCheque.skipped_no_funds")
+		return
+	}
+	rc := w.Deploy("reenter", CompileContract(AuxDir("reenter")), nil).Hash
+	id, other := []byte("cheque/reentrant"), []byte("cheque/bystander")
+	lock := util.Uint160{0xee, 1}
+	ok := func(aer *state.AppExecResult, what string) bool {
+		if aer.VMState != vmstate.Halt {
+			// no statement obliges these to succeed in whatever state the history
+			// left; counted, not judged
+			r.Count("outcome.reentrantCheque.refused")
+			r.Tracef("re-entrant cheque scenario: %s refused: %s", what, clipStr(aer.FaultException, 100))
+			return false
+		}
+		return true
+	}
+	voter := func(i int) []Signer {
+		k := e.byPub[m.alpha[i]]
+		return []Signer{Single(e.nameOf[m.alpha[i]], k)}
+	}
+	arm := w.CallTx(nil, -1, rc, "arm", w.NeoFS.Hash, id, amount, lock)
+	// another decision in flight (one vote)
+	by := w.CallTx(voter(0), -1, w.NeoFS.Hash, "cheque", other, e.users[1].acc, int64(mcGAS), lock)
+	aers := w.AddBlock([]*transaction.Transaction{arm, by}, 1)
+	r.AddBlock(2, 1)
+	if !ok(aers[0], "arm") || !ok(aers[1], "bystander vote") {
+		return
+	}
+	before, neofsBefore := w.GASOf(rc), w.GASOf(w.NeoFS.Hash)
+	for i := 0; i < thr; i++ {
+		tx := w.CallTx(voter(i), -1, w.NeoFS.Hash, "cheque", id, rc, amount, lock)
+		aer := w.AddBlock([]*transaction.Transaction{tx}, 1)[0]
+		r.AddBlock(1, 1)
+		r.Tracef("h=%d re-entrant cheque: vote %d of %d by %s → %s %s", w.Height(), i+1, thr, e.nameOf[m.alpha[i]], aer.VMState, clipStr(aer.FaultException, 80))
+		if !ok(aer, fmt.Sprintf("vote %d", i+1)) {
+			return
+		}
+	}
+	r.Count("outcome.reentrantCheque.ok")
+	r.Count("probe.cheque_receiver_asked_again_inside_the_callback")
+	got := new(big.Int).Sub(w.GASOf(rc), before)
+	paid := new(big.Int).Sub(neofsBefore, w.GASOf(w.NeoFS.Hash))
+	if got.Cmp(big.NewInt(amount)) != 0 || paid.Cmp(big.NewInt(amount)) != 0 {
+		r.Violation("C19/cheque-paid-without-approval", "", "cheque %s of %d approved once by %d of %d keys: the receiver (a contract asking again from its payment callback) got %s, NeoFS paid %s", id, amount, thr, len(m.alpha), got, paid)
+	}
 }
 
 func mcBoolInt(b bool) int64 {
